@@ -523,6 +523,17 @@ func doGen() {
 				emit(J{"k": "name", "who": "gen", "type": t.name, "ok": strings.HasSuffix(norm(t.name), norm(short)), "what": dn})
 			}
 		}
+		if sn.DataWordCount() > 1024 || sn.PointerCount() > 1024 {
+			// size-boundary structs: the allocation size is judged; the field accessors are the same code as in the
+			// small struct they were derived from, and byte images of 512 KiB would only slow the judge down.  The last
+			// data word and the last pointer slot must be addressable in a freshly allocated struct.
+			_, seg, _ := capnp.NewMessage(capnp.SingleSegment(nil))
+			s, _ := t.mk(seg)
+			okd := sn.DataWordCount() == 0 || int(s.Size().DataSize) >= int(sn.DataWordCount())*8
+			okp := sn.PointerCount() == 0 || s.SetPtr(int(sn.PointerCount())-1, capnp.Ptr{}) == nil
+			emit(J{"k": "name", "who": "gen", "type": t.name, "ok": okd && okp, "what": "last data word / pointer slot of the declared sections is addressable"})
+			continue
+		}
 		fs := enumerate(t.id, nil, nil, nil)
 		for _, f := range fs {
 			f := f
